@@ -756,3 +756,139 @@ Proof.
   exact (text_code_lines_same_tokens (sercfg_of (with_mode m c) ns) (sercfg_of c ns) shapes sl1 sl2
            (conj eq_refl eq_refl) E1 E2 S1 S2).
 Qed.
+
+(** ** The same through the SPEC lexer of ShExC ([Spec/ShexcGrammar.v], written from the
+    ShEx 2.1 grammar for property C05; it skips white space and comments).  On C05's domain
+    [C05_dom z l] (a condition on the namespaces and the shape list, not on the rendered
+    text) the rendered document lexes to [doc_toks z l] ([WellFormedProofs.render_lexes]);
+    [doc_toks] reads [z_ns]/[z_tau] and no comment: the options of this file leave the token
+    stream of the document -- the schema it denotes -- unchanged. *)
+From Shexer Require Import Model.C05Dom Spec.ShexcGrammar Proofs.WellFormedLex Proofs.WellFormedProofs.
+
+Lemma target_toks_agree z1 z2 p t : same_tokens z1 z2 -> target_toks z1 p t = target_toks z2 p t.
+Proof. intros [H1 H2]. unfold target_toks. now rewrite H1, H2. Qed.
+
+Lemma stmt_toks_agree z1 z2 s b : same_tokens z1 z2 -> stmt_toks z1 s b = stmt_toks z2 s b.
+Proof.
+  intros H. pose proof H as [H1 H2]. unfold stmt_toks. rewrite H1.
+  rewrite (target_toks_agree z1 z2 _ _ H).
+  replace (map (target_toks z1 (s_prop s)) (s_types s)) with (map (target_toks z2 (s_prop s)) (s_types s));
+    [reflexivity|]. apply map_ext. intros t. symmetry. now apply target_toks_agree.
+Qed.
+
+Lemma stmts_toks_agree z1 z2 l : same_tokens z1 z2 -> stmts_toks z1 l = stmts_toks z2 l.
+Proof.
+  intros H. induction l as [|s l IH]; [reflexivity|]. destruct l as [|s' l'].
+  - apply stmt_toks_agree, H.
+  - rewrite !stmts_toks_cons2, IH. now rewrite (stmt_toks_agree z1 z2 s false H).
+Qed.
+
+Lemma stmts_toks_drop z l : stmts_toks z (map drop_comments l) = stmts_toks z l.
+Proof.
+  induction l as [|s l IH]; [reflexivity|]. destruct l as [|s' l']; [reflexivity|].
+  change (map drop_comments (s :: s' :: l')) with (drop_comments s :: drop_comments s' :: map drop_comments l').
+  rewrite !stmts_toks_cons2. change (drop_comments s' :: map drop_comments l') with (map drop_comments (s' :: l')).
+  now rewrite IH.
+Qed.
+
+Lemma doc_toks_agree z1 z2 l : same_tokens z1 z2 -> doc_toks z1 l = doc_toks z2 l.
+Proof.
+  intros H. pose proof H as [H1 H2]. unfold doc_toks. rewrite H1. f_equal.
+  induction l as [|sh l IH]; [reflexivity|]. cbn [flat_map]. rewrite IH. f_equal.
+  unfold shape_toks. now rewrite H1, (stmts_toks_agree z1 z2 _ H).
+Qed.
+
+Lemma doc_toks_drop z l : doc_toks z (map_shapes drop_comments l) = doc_toks z l.
+Proof.
+  unfold doc_toks. f_equal. induction l as [|sh l IH]; [reflexivity|].
+  unfold map_shapes in *. cbn [map flat_map]. rewrite IH. f_equal.
+  unfold shape_toks. cbn [map_stmts sh_name sh_stmts]. now rewrite stmts_toks_drop.
+Qed.
+
+Lemma stmt_ok_agree z1 z2 s : same_tokens z1 z2 -> stmt_ok z1 s = stmt_ok z2 s.
+Proof. intros [H1 H2]. unfold stmt_ok. now rewrite H1, H2. Qed.
+
+Lemma forallb_ext' {A} (f g : A -> bool) l : (forall x, f x = g x) -> forallb f l = forallb g l.
+Proof. intros H. induction l as [|x l IH]; [reflexivity|]. cbn. now rewrite H, IH. Qed.
+
+Lemma C05_dom_agree z1 z2 l : same_tokens z1 z2 -> C05_dom z1 l = C05_dom z2 l.
+Proof.
+  intros H. pose proof H as [H1 H2]. unfold C05_dom. rewrite H1. f_equal.
+  apply forallb_ext'. intros sh. unfold shape_ok. rewrite H1. f_equal.
+  apply forallb_ext'. intros s. now apply stmt_ok_agree.
+Qed.
+
+Lemma stmt_ok_drop z s : stmt_ok z s = true -> stmt_ok z (drop_comments s) = true.
+Proof.
+  unfold stmt_ok. cbn [drop_comments s_prop s_types s_comments forallb]. intros H.
+  apply andb_true_iff in H as [H _]. now rewrite H.
+Qed.
+
+Lemma C05_dom_drop z l : C05_dom z l = true -> C05_dom z (map_shapes drop_comments l) = true.
+Proof.
+  unfold C05_dom. intros H. apply andb_true_iff in H as [Hn Hl]. rewrite Hn. cbn [andb].
+  unfold map_shapes. rewrite forallb_forall in *. intros sh' Hin. apply in_map_iff in Hin as (sh & <- & Hin).
+  specialize (Hl sh Hin). unfold shape_ok in *. cbn [map_stmts sh_name sh_stmts].
+  apply andb_true_iff in Hl as [Ha Hb]. rewrite Ha. cbn [andb].
+  rewrite forallb_forall in *. intros s' Hs. apply in_map_iff in Hs as (s & <- & Hs).
+  apply stmt_ok_drop, Hb, Hs.
+Qed.
+
+(** B1 through the lexer: same shapes, same token rendering, any report modes *)
+Theorem lex_same_tokens z1 z2 l :
+  same_tokens z1 z2 -> C05_dom z1 l = true ->
+  exists t1 t2, render z1 l = Some t1 /\ render z2 l = Some t2 /\
+                lex t1 = Some (doc_toks z1 l) /\ lex t2 = Some (doc_toks z1 l).
+Proof.
+  intros Ht Hd.
+  destruct (render_lexes z1 l Hd) as (t1 & R1 & L1).
+  assert (Hd2 : C05_dom z2 l = true) by (now rewrite <- (C05_dom_agree z1 z2 l Ht)).
+  destruct (render_lexes z2 l Hd2) as (t2 & R2 & L2).
+  exists t1, t2. rewrite (doc_toks_agree z1 z2 l Ht) at 2.
+  repeat split; auto using lexes_lex.
+Qed.
+
+(** B2 through the lexer *)
+Theorem lex_disable_comments z z' l :
+  same_tokens z z' -> C05_dom z l = true ->
+  exists t t', render z l = Some t /\ render z' (map_shapes drop_comments l) = Some t' /\
+               lex t = Some (doc_toks z l) /\ lex t' = Some (doc_toks z l).
+Proof.
+  intros Ht Hd.
+  destruct (render_lexes z l Hd) as (t & R1 & L1).
+  assert (Hd2 : C05_dom z' (map_shapes drop_comments l) = true).
+  { rewrite <- (C05_dom_agree z z' _ Ht). now apply C05_dom_drop. }
+  destruct (render_lexes z' _ Hd2) as (t' & R2 & L2).
+  exists t, t'. rewrite <- (doc_toks_agree z z' _ Ht), doc_toks_drop in L2.
+  repeat split; auto using lexes_lex.
+Qed.
+
+(** run level: the two runs succeed together on the domain and give the same token stream *)
+Theorem run_shexc_lex_disable_comments fa c (thr : F fa) g ns shapes :
+  run_shapes fa (rwith_disable_comments false c) thr g = inl (ns, shapes) ->
+  C05_dom (sercfg_of (rwith_disable_comments false c) ns) shapes = true ->
+  exists t t', run_shexc fa (rwith_disable_comments false c) thr g = inl t /\
+               run_shexc fa (rwith_disable_comments true c) thr g = inl t' /\
+               lex t = lex t' /\ lex t <> None.
+Proof.
+  intros Hr Hd.
+  destruct (lex_disable_comments (sercfg_of (rwith_disable_comments false c) ns)
+              (sercfg_of (rwith_disable_comments true c) ns) shapes (conj eq_refl eq_refl) Hd)
+    as (t & t' & R1 & R2 & L1 & L2).
+  exists t, t'. unfold run_shexc. rewrite run_disable_comments, Hr. cbn [map_res on_shapes].
+  fold (sercfg_of (rwith_disable_comments false c) ns). fold (sercfg_of (rwith_disable_comments true c) ns).
+  rewrite R1, R2, L1, L2. repeat split; discriminate.
+Qed.
+
+Theorem run_shexc_lex_report_mode fa m c (thr : F fa) g ns shapes :
+  run_shapes fa c thr g = inl (ns, shapes) -> C05_dom (sercfg_of c ns) shapes = true ->
+  exists t1 t2, run_shexc fa (with_mode m c) thr g = inl t1 /\ run_shexc fa c thr g = inl t2 /\
+                lex t1 = lex t2 /\ lex t1 <> None.
+Proof.
+  intros Hr Hd.
+  destruct (lex_same_tokens (sercfg_of c ns) (sercfg_of (with_mode m c) ns) shapes (conj eq_refl eq_refl) Hd)
+    as (t2 & t1 & R2 & R1 & L2 & L1).
+  exists t1, t2. unfold run_shexc. rewrite O6_mode, Hr.
+  fold (sercfg_of (with_mode m c) ns). fold (sercfg_of c ns).
+  rewrite R1, R2, L1, L2. repeat split; discriminate.
+Qed.
